@@ -111,10 +111,22 @@ def run(tier, work, replay=None):
     opts0 = {"async_client": True}
     scal = {"Date": {"type": "datetime.date"}}
 
-    def gen(pl):
-        tag = "base" if pl is None else ("p_" + "_".join(pl) if pl else "p_empty")
+    MODSPELL = {"shorter", "extract", "fwdrefs", "noreimports"}      # contrib modules holding exactly one plugin class
+
+    def spell(pl, mixed):
+        """configuration strings of a plugin list; mixed: the FIRST plugin is named by its MODULE path (the explorer then
+        discovers the class), the others by class path -- the order of application must still be the configured one"""
+        out_ = [PATH[p] for p in pl]
+        if mixed:
+            out_[0] = PATH[pl[0]].rsplit(".", 1)[0]
+        return out_
+
+    def gen(pl_):
+        mixed = isinstance(pl_, tuple)
+        pl = list(pl_[0]) if mixed else pl_
+        tag = "base" if pl is None else (("m_" if mixed else "p_") + "_".join(pl) if pl else "p_empty")
         job = write_job(work.dir / f"job_{tag}", schema=SDL, queries=QUERIES, package="gclient",
-                        options=dict(opts0, **({"plugins": [PATH[p] for p in pl]} if pl else {})), scalars=scal)
+                        options=dict(opts0, **({"plugins": spell(pl, mixed)} if pl else {})), scalars=scal)
         r = generate(job)
         if r["exc_class"]:
             return pl, job, r, None
@@ -125,14 +137,16 @@ def run(tier, work, replay=None):
         o["hashes"] = file_hashes(job)
         return pl, job, r, o
 
-    outs = pmap(gen, [None] + lists)
+    mixed_lists = [(pl, "module_path_first") for pl in lists if len(pl) >= 2 and pl[0] in MODSPELL]
+    outs = pmap(gen, [None] + lists + mixed_lists)
+    spellings = [None] + ["class_paths"] * len(lists) + ["module_path_first"] * len(mixed_lists)
     base = outs[0][3]
     if base is None or not base.get("loads"):
         raise Machinery(f"plugin-free package does not generate/load: {outs[0][2].get('exc_msg') if base is None else base.get('error')}")
     traces, owners = [], []
     n = 0
-    for pl, job, r, o in outs[1:]:
-        feats = {"plugins": pl, "plugins_key": "+".join(pl),
+    for (pl, job, r, o), spelling in list(zip(outs, spellings))[1:]:
+        feats = {"plugins": pl, "plugins_key": "+".join(pl), "spelling": spelling,
                  "fwdrefs_before_shorter": "fwdrefs" in pl and "shorter" in pl and pl.index("fwdrefs") < pl.index("shorter")}
         if o is None:
             v.violation(feats, f"gen_crash:{r['exc_class']}", {"message": r["exc_msg"]})
